@@ -3,7 +3,9 @@ package wal
 import (
 	"encoding/binary"
 	"errors"
+	"fmt"
 	"io"
+	"math"
 
 	"github.com/feichai0017/NoKV/kv"
 	"github.com/feichai0017/NoKV/utils"
@@ -98,6 +100,11 @@ func DecodeRecord(r io.Reader) (RecordType, []byte, uint32, error) {
 
 func EncodeRecord(w io.Writer, recType RecordType, payload []byte) (int, error) {
 	total := len(payload) + 1 // Type byte + payload length.
+	if uint64(total) > math.MaxUint32 {
+		// The length field is 32 bits wide: a longer record would be framed with a wrapped
+		// length and make the rest of the segment unreadable.
+		return 0, fmt.Errorf("wal: record of %d bytes does not fit the 32-bit length field", total)
+	}
 	length := uint32(total)
 
 	var hdr [4]byte
